@@ -11,6 +11,8 @@ VARIABLES cfg,      \* [nd, sh, np, lays] as in LayoutBox, plus src, route, useb
 vars == <<cfg, arr, k, sub, stage>>
 P == Pad(cfg.np, cfg.nd)
 Ranks == RankCoords(P)
+SkipsOnZeroBuffer == FALSE          \* cfg: SkipsOnZeroBuffer <- SkipsTrue is the code before the plot_only flag (see XchgAll)
+SkipsTrue == TRUE
 
 \* bufferSize as LayoutHandler.__init__ computes it (layout.py:431-462), per rank
 BufSize(rc) ==
@@ -78,9 +80,11 @@ XchgAll ==
           LET size == XchgSize(cfg.sh, H.of, H.ot, P, cfg.np, rc) chunk == size \div nsp me == rc[a0]
               send(j) == arr[[rc EXCEPT ![a0] = j]][H.t]
               old == arr[rc][H.r]
-              \* layout.py:517 "if (self._buffer_size == 0): return": a rank whose buffer size is 0 takes itself for the plot-only
-              \* rank and skips the whole call; if a member of its sub-communicator does not skip, that member waits for ever
-              idle == \E j \in 0..(nsp - 1) : (BufSize([rc EXCEPT ![a0] = j]) = 0) # (BufSize(rc) = 0)
+              \* layout.py:517: the plot-only rank (constructed with empty coordinate arrays, on a communicator of its own) ignores the
+              \* call.  Before fix 'plot_only flag' the test was "_buffer_size == 0", which also caught DATA ranks that own nothing in any
+              \* layout of an over-decomposed grid: they skipped the Alltoall their neighbours issue (SkipsOnZeroBuffer <- TRUE in the
+              \* cfg reproduces that code: NoError fails).  Every rank of this model is a data rank.
+              idle == SkipsOnZeroBuffer /\ \E j \in 0..(nsp - 1) : (BufSize([rc EXCEPT ![a0] = j]) = 0) # (BufSize(rc) = 0)
               bad == idle \/ IsError(old) \/ size > Len(old) \/ \E j \in 0..(nsp - 1) : IsError(send(j)) \/ size > Len(send(j))
                      \/ XchgSize(cfg.sh, H.of, H.ot, P, cfg.np, [rc EXCEPT ![a0] = j]) # size
           IN [arr[rc] EXCEPT ![H.r] = IF bad THEN Error
@@ -101,8 +105,7 @@ SameCopy ==  \* source_name == dest_name: copy the first layout.size entries
     /\ sub' = "done" /\ UNCHANGED <<cfg, k, stage>>
 Next == Choose \/ Load \/ PackAll \/ XchgAll \/ UnpackAll \/ CopyAll \/ SameCopy
 
-\* over-decomposed boxes (GridFits <- AnyFits) are explored under CONSTRAINT NoIdle: configurations in which some rank owns nothing
-\* in any layout are outside what the handler supports (the idle rank skips collectives its neighbours issue: NoError fails there)
+\* (with SkipsOnZeroBuffer <- SkipsTrue, over-decomposed boxes are only safe under CONSTRAINT NoIdle)
 NoIdle == stage < 2 \/ \A rc \in Ranks : BufSize(rc) > 0
 (* ---- refinement of LayoutAbs and the side conditions of C01 / C02 ---- *)
 NoError == stage = 2 => \A rc \in Ranks : ~IsError(arr[rc].S) /\ ~IsError(arr[rc].D) /\ ~IsError(arr[rc].B)
